@@ -1026,6 +1026,18 @@ pub mod verif {
     do_remapping_loop_one_device(&mut Adapter { inner: driver }, layout, false)
   }
   
+  // The real driver (mio poll, evdev-format reads, uinput-format writes) on descriptors that are
+  // already open, so that the loop can be observed at the system-call boundary without
+  // /dev/input and /dev/uinput.
+  pub fn run_real_driver(keyboard_fd: std::os::unix::io::RawFd, writer_fd: std::os::unix::io::RawFd, tablet_fd: Option<std::os::unix::io::RawFd>, layout: Layout) -> Result<(), String> {
+    let rw = RW {
+      r: DevInputReader { fd: keyboard_fd },
+      w: DevInputWriter::verif_from_fd(writer_fd),
+      t: tablet_fd.map(|fd| TabletModeSwitchReader { fd })
+    };
+    do_remapping_loop_one_device(&mut RealDriver { rw }, layout, false)
+  }
+  
   pub fn excluded_flags_keyboards(devices: Vec<ExtractedKeyboard>, excludes: &[&str]) -> Vec<bool> {
     flag_excluded(devices, excludes).into_iter().map(|d| d.excluded).collect()
   }
